@@ -324,6 +324,9 @@ class Driver:
         got = self._np(cur)
         check(got.shape == old.shape, pfx + ":shape", lambda: f"{what}: '{n}' shape {old.shape} -> {got.shape}")
         check(cur.dtype == DT[self.dtype], pfx + ":dtype", lambda: f"{what}: '{n}' dtype became {cur.dtype}")
+        # ---- invariants the property states on top of the formula (range, sharp): judged first so
+        # that a failure is reported under the most specific kind
+        self._claims(n, pre, got, what)
         und, allnan = enc["undecidable"], enc["allnan"]
         dec = ~und & ~allnan
         self.stats["amb"] += int(und.sum())
@@ -340,8 +343,6 @@ class Driver:
             check(len(self.calls) > pre["ncalls"], "custom:notcalled",
                   lambda: f"{what}: '{n}' configured with the custom reduction but it was not called")
             self.stats["custom_used"] += 1
-        # ---- invariants the property states on top of the formula
-        self._claims(n, pre, got, what)
         # ---- bookkeeping
         self.stats["applied_nonempty"] += 1
         if max(pre["npos"], pre["nneg"]) >= 2:
